@@ -99,6 +99,14 @@ fn lib_source(g: &mut Rng, session: bool) -> (String, Vec<String>) {
         ("visb", "{ a::: 10, h::: 20, v:: 30, extra: [lib.shallow] }".into()),
         ("visc", "{ a+: 1, h+:: 5, v+::: 6, n+: { z::: 2 } }".into()),
         ("visd", "{ a:: 0, zz::: 0, extra:: 0 } + { [k]: k + \"!\" for k in [\"a\", \"zz\", \"extra\"] }".into()),
+        // fields that depend on `self`: objects DERIVED from a shared object by later requests (a key removed, patched,
+        // overridden, hidden) must compute them against the new object, whatever was forced on the original before
+        ("selfdep", "{ a: 1, b: std.objectHas(self, \"a\"), n: std.length(self), c: self.a + lib.shallow, d: std.objectFields(self) }".into()),
+        // `+:` fields whose right-hand side is deep, fails, or imports: an evaluation cut off inside them leaves the
+        // field's thunk in progress; a later request must still see inherited + own
+        ("plusdeep", "{ xs: [lib.shallow], k: 1 } + { xs+: [lib.deep] }".into()),
+        ("plussub", "{ xs: [0], t: \"t\" } + { xs+: (import \"lib/sub.libsonnet\").t, t+: std.native(\"id\")(\"u\") }".into()),
+        ("plusobj", "{ o: { p: 1 } } + { o+: { q: lib.deep, r: lib.shallow } } + { o+: { p+: 1 } }".into()),
         // a native function that fails for some arguments and succeeds for others
         ("picky", "std.native(\"picky\")(lib.guarded.x)".into()),
         ("picky2", "[std.native(\"picky\")(lib.shallow), std.native(\"picky\")(lib.shallow + 1)]".into()),
@@ -130,10 +138,10 @@ fn client_source(g: &mut Rng, names: &[String], via: &str) -> String {
     };
     let f = |g: &mut Rng| g.pick(names).clone();
     // object-typed library fields (those present in this library)
-    let objs: Vec<String> = names.iter().filter(|n| matches!(n.as_str(), "visa" | "visb" | "visc" | "visd" | "guarded" | "checked" | "nested" | "comp" | "viasuper" | "halfbad" | "outer")).cloned().collect();
+    let objs: Vec<String> = names.iter().filter(|n| matches!(n.as_str(), "visa" | "visb" | "visc" | "visd" | "guarded" | "checked" | "nested" | "comp" | "viasuper" | "halfbad" | "outer" | "selfdep" | "plusdeep" | "plussub" | "plusobj")).cloned().collect();
     let vis: Vec<String> = objs.iter().filter(|n| n.starts_with("vis")).cloned().collect();
     let fo = |g: &mut Rng| if !vis.is_empty() && g.chance(3, 5) { g.pick(&vis).clone() } else if objs.is_empty() { "nested".to_string() } else { g.pick(&objs).clone() };
-    match g.below(34) {
+    match g.below(38) {
         0 => format!("{l}.{}", f(g)),
         1 => format!("local l = {l}; [l.{}, l.{}]", f(g), f(g)),
         2 => format!("local l = {l}; {{ a: l.{}, b: l.{} }}", f(g), f(g)),
@@ -167,6 +175,10 @@ fn client_source(g: &mut Rng, names: &[String], via: &str) -> String {
         28 => format!("local l = {l}; local s = l.{} + l.{}; [std.objectFieldsAll(s), std.objectFields(s + l.{}), s]", fo(g), fo(g), fo(g)),
         29 => format!("local l = {l}; [l.{a} + l.{b} == l.{b} + l.{a}, std.objectHasAll(l.{a} + l.{b}, \"h\"), std.objectHas(l.{b} + l.{a}, \"v\")]", a = fo(g), b = fo(g)),
         30 => format!("local l = {l}; {{ r: l.{} }} + {{ r+: l.{} }}", fo(g), fo(g)),
+        33 => format!("local l = {l}; [std.objectRemoveKey(l.{a}, \"a\"), std.mergePatch(l.{b}, {{ a: null, k: null }}), l.{a}]", a = fo(g), b = fo(g)),
+        34 => format!("local l = {l}; [l.{a} {{ a: 10 }}, l.{b} + {{ a:: 5, xs+: [9] }}, std.objectRemoveKey(l.{a}, \"xs\")]", a = fo(g), b = fo(g)),
+        35 => format!("local l = {l}; local o = l.{}; [std.length(o), std.objectFields(o), o]", fo(g)),
+        36 => format!("local l = {l}; std.prune(l.{}) == l.{}", fo(g), fo(g)),
         31 => format!("local l = {l}; [std.native(\"picky\")(l.shallow), l.{}]", f(g)),
         32 => format!("local l = {l}; std.native(\"picky\")(l.guarded.x - 1) + l.{}", f(g)),
         25 => format!("local l = {l}; [std.native(\"tryOther\")(l.{}), l.{}]", f(g), f(g)),
